@@ -59,10 +59,12 @@ def model_with_thr(est):
   return ev
 
 
-def predict_pairs_event(est, S, idx, y, via_index, with_score=True):
-  arg = idx if via_index else S[idx]
+def predict_pairs_event(est, S, idx, y, via_index, with_score=True, off=None):
+  """S: the harness's own copy of the data the tuples designate; idx: index pairs into S; off: (index map) the same
+  points named through the estimator's current preprocessor"""
+  arg = (idx if off is None else off[idx]) if via_index else S[idx]
   d = est.pair_distance(arg)
-  ev = {'ev': 'PredictPairs', 'd': dyv(d), 'pred': [int(v) for v in est.predict(arg)],
+  ev = {'pts': [[dyv(S[i]), dyv(S[j])] for i, j in idx],'ev': 'PredictPairs', 'd': dyv(d), 'pred': [int(v) for v in est.predict(arg)],
         'dec': dyv(est.decision_function(arg)), 'thr': dy(est.threshold_), 'y': [int(v) for v in y],
         'has_score': bool(with_score), 'score': dy(est.score(arg, y)) if with_score else dy(0.0)}
   return ev
@@ -95,15 +97,30 @@ def gen_pairs_trace(recipe, rng):
     if t < 12:
       return float(dist[t % len(dist)])
     return float(dist[-1] * 2 + 1)
+  off = None            # index map: row i of the original store is row off[i] of the estimator's current preprocessor
   for op in recipe['ops']:
     kind = op[0]
     if kind == 'fit':
-      est.fit(fit_pairs, tr['labels'])
+      if via_index:
+        # the same points under NEW names: the preprocessor is replaced by a row-permuted copy of the data and the
+        # tuples are given as indices into it (a refit must resolve indices against the estimator's current preprocessor)
+        perm = rng.permutation(len(store))
+        off = np.argsort(perm)
+        est.set_params(preprocessor=store[perm].copy())
+        try:
+          est.fit(off[fit_pairs], tr['labels'])
+        except Exception as e:
+          # the very same points fitted without error a moment ago
+          events.append({'ev': 'Raised', 'clause': 'C04.refit_on_the_same_points_under_new_index_names_raised',
+                         'exc': type(e).__name__, 'msg': str(e)[:120]})
+          return {'est': name, 'via_index': via_index, 'ops': recipe['ops'], 'events': events}
+      else:
+        est.fit(fit_pairs, tr['labels'])
       events.append(model_with_thr(est))
     elif kind == 'calibrate':
       strat = ['accuracy', 'f_beta', 'max_tpr', 'max_tnr'][op[1] % 4]
       kw = {'min_rate': 0.5} if strat.startswith('max') else {}
-      est.calibrate_threshold(arg, y, strategy=strat, **kw)
+      est.calibrate_threshold((idx if off is None else off[idx]) if via_index else arg, y, strategy=strat, **kw)
       events.append({'ev': 'Calibrate', 'thr_after': dy(est.threshold_), 'strategy': strat})
     elif kind == 'set_threshold':
       t = real_thr(op[1])
@@ -117,8 +134,8 @@ def gen_pairs_trace(recipe, rng):
       est.set_threshold(val)
       events.append({'ev': 'SetThreshold', 'arg': dy(float(val)), 'thr_after': dy(est.threshold_), 'exc': ''})
     elif kind == 'predict':
-      events.append(predict_pairs_event(est, S, idx, y, via_index))
-  events.append(predict_pairs_event(est, S, idx, y, via_index))
+      events.append(predict_pairs_event(est, S, idx, y, via_index, off=off))
+  events.append(predict_pairs_event(est, S, idx, y, via_index, off=off))
   return {'est': name, 'via_index': via_index, 'ops': recipe['ops'], 'events': events}
 
 
